@@ -46,10 +46,10 @@ let read_pin t : vinput =
     if next_int t = 1 then begin
       let pub = next_opt t in
       let sg = (match next_opt t with Some b -> b | None -> []) in
-      Some { vg_pub = pub; vg_sig = sg } end
+      Some { svg_pub = pub; svg_sig = sg } end
     else None) in
-  { vi_nonwit = nonwit; vi_wit = wit; vi_redeem = redeem; vi_witscript = ws; vi_sigs = sigs;
-    vi_prev_txid = ptx; vi_prev_index = pidx }
+  { svi_nonwit = nonwit; svi_wit = wit; svi_redeem = redeem; svi_witscript = ws; svi_sigs = sigs;
+    svi_prev_txid = ptx; svi_prev_index = pidx }
 
 let out_str = function
   | VOk true -> "true" | VOk false -> "false" | VErr -> "err" | VPanic _ -> "panic"
@@ -76,11 +76,17 @@ let cmd_vsig t =
   let find_key pub = match Stdlib.List.assoc_opt (hex_of_bytes pub) keys with
     | Some x -> x | None -> failwith "key-not-in-table" in
   let parse_pk pub = let (ok, comp, _) = find_key pub in if ok then Some comp else None in
-  let hash160 pub = let (_, _, h) = find_key pub in h in
+  (* HASH160 is the executable Model.hash160 (Model/Ripemd160.v); the oracle column is only cross-checked *)
+  let hash160 pub =
+    let h = Model.hash160 pub in
+    (match Stdlib.List.assoc_opt (hex_of_bytes pub) keys with
+     | Some (_, _, h') when h' <> h -> failwith "hash160-differs-from-implementation"
+     | _ -> ());
+    h in
   let der_ok d = match Stdlib.List.assoc_opt (hex_of_bytes d) ders with
     | Some b -> b | None -> failwith "der-not-in-table" in
   let verify ck d s = Stdlib.List.mem (hex_of_bytes ck, hex_of_bytes d, hex_of_bytes s) vers in
-  let p = { vp_tx = tx; vp_ins = ins } in
+  let p = { svp_tx = tx; svp_ins = ins } in
   let r = vs_validate_input digest parse_pk der_ok verify hash160 ver p (nat_of_int idx) in
   let a = vs_validate_all digest parse_pk der_ok verify hash160 ver p in
   Printf.printf "res=%s all=%s\n" (out_str r) (out_str a)
